@@ -1,6 +1,6 @@
 """C07 — acceleration shortcuts never change an answer (structural necessary conditions)."""
 from .. import facts, run
-from ..rules import dep, footprint, pure
+from ..rules import dep, footprint, pure, segments
 
 
 def main(tier):
@@ -8,6 +8,7 @@ def main(tier):
     P = facts.load("release")
     rep.analysed["tree_hash"] = P.tree_hash
     dep.culling(P, rep)
+    segments.line_siblings(P, rep)     # slab and fault are copies of one another: shortcuts, input checks and guards must agree
     dep.accumulators(P, rep)
     dep.surface_pairing(P, rep)
     dep.surface_fallback(P, rep)
